@@ -24,7 +24,7 @@ ENGINE = "E2 xprod"
 TECHNIQUE = "exhaustive lattice enumeration (IVP catalogue x tolerances x checkpoint layouts x final-time remainders x dt0 x clip x factorisations x calibration x strategies x linearisation x order) on the real adaptive and fixed-grid solvers against closed-form solutions; convergence-order regression"
 LEVEL_TEXT = "The continuum statement is decided on an explicitly listed lattice; every lattice point is solved and compared with the closed-form solution (tolerance multiple C=30; observed-order regression on 4 refinement levels)."
 LEVEL_NOTE = "Closed-form solutions in plain Python (math module). A constant-factor mis-scaling of the error estimate below ~10x is not C01's job (C07 decides it exactly)."
-TIMEOUT_S = {"quick": 1800, "thorough": 10800}
+TIMEOUT_S = {"quick": 1800, "thorough": 21600}
 CBOUND = 30.0
 # observed order must be >= nu - SLOPE_MARGIN (three finest levels above rounding); measured on the repaired tree: first-order problems
 # reach nu - 0.79 in the worst case (Riccati, nu = 6, large solution derivatives near t = 1), typical nu - 0.1
